@@ -561,11 +561,17 @@ func runBoolSearch(r *bluge.Reader, req bluge.SearchRequest, idOf map[uint64]uin
 }
 
 func boolTotalOf(family string) func(string) int64 {
-	return func(param string) int64 { return int64(len(boolFamilies[family].canon)) }
+	return func(param string) int64 {
+		ensureBool()
+		return int64(len(boolFamilies[family].canon)) * int64(nBlocks(family, param))
+	}
 }
 
 func boolEvalOf(family string) explore.EnumFunc {
-	return func(idx int64, param string) *explore.Result { return boolEval(boolFamilies[family], idx, param) }
+	return func(idx int64, param string) *explore.Result {
+		ensureBool()
+		return boolEval(boolFamilies[family], idx, param)
+	}
 }
 
 // corpusAt maps the case number to a corpus: in order (simplest first) for the
@@ -583,27 +589,57 @@ func (fam *boolFamily) corpusAt(idx int64, stage string) int {
 	return fam.canon[idx]
 }
 
+// A case of a boolean enumeration is (corpus, block of at most blockSize
+// consecutive queries of the stage's list); the blocks of one corpus are
+// consecutive cases, so the index of the last corpus is kept.
+const blockSize = 256
+
+func nBlocks(family, stage string) int {
+	n := len(boolQueries(family, stage).queries)
+	return (n + blockSize - 1) / blockSize
+}
+
+var lastBool struct {
+	family string
+	corpus int
+	r      *bluge.Reader
+	idOf   map[uint64]uint
+}
+
 func boolEval(fam *boolFamily, idx int64, param string) *explore.Result {
-	c := fam.corpusAt(idx, param)
+	nb := int64(nBlocks(fam.name, param))
+	block := int(idx % nb)
+	c := fam.corpusAt(idx/nb, param)
 	sp := boolQueries(fam.name, param)
+	queries := sp.queries[block*blockSize:]
+	if len(queries) > blockSize {
+		queries = queries[:blockSize]
+	}
 	res := &explore.Result{Counts: map[string]int64{}}
-	r, err := buildIndex(fam.layout(c))
-	if err != nil {
-		res.Failure = "harness: " + err.Error()
-		res.Key = "harness-build"
-		return res
+	if lastBool.r == nil || lastBool.family != fam.name || lastBool.corpus != c {
+		if lastBool.r != nil {
+			lastBool.r.Close()
+			lastBool.r = nil
+		}
+		r, err := buildIndex(fam.layout(c))
+		if err != nil {
+			res.Failure = "harness: " + err.Error()
+			res.Key = "harness-build"
+			return res
+		}
+		if l := layoutOf(r); l != "2segs/del=1+1" {
+			r.Close()
+			res.Failure = "harness: unexpected layout " + l
+			res.Key = "harness-layout"
+			return res
+		}
+		lastBool.family, lastBool.corpus, lastBool.r, lastBool.idOf = fam.name, c, r, map[uint64]uint{}
 	}
-	defer r.Close()
-	if l := layoutOf(r); l != "2segs/del=1+1" {
-		res.Failure = "harness: unexpected layout " + l
-		res.Key = "harness-layout"
-		return res
-	}
-	idOf := map[uint64]uint{}
+	r, idOf := lastBool.r, lastBool.idOf
 	all := uint(1)<<uint(fam.ndocs) - 1
 	h := fnv.New64a()
 	var firstKnown, firstFresh *explore.Result
-	for _, qn := range sp.queries {
+	for _, qn := range queries {
 		var want, defect uint
 		for d := 0; d < fam.ndocs; d++ {
 			m := docMask(c, d)
@@ -656,14 +692,14 @@ func boolEval(fam *boolFamily, idx int64, param string) *explore.Result {
 		res.Failure, res.Key = firstKnown.Failure, firstKnown.Key
 	}
 	if idx%1500 == 0 {
-		qn := sp.queries[len(sp.queries)/3]
+		qn := queries[len(queries)/3]
 		var want uint
 		for d := 0; d < fam.ndocs; d++ {
 			if qn.eval(docMask(c, d)) {
 				want |= 1 << uint(d)
 			}
 		}
-		res.Sample = map[string]interface{}{"enumeration": "c07-bool-" + fam.name, "corpus": fam.text(c), "queries": len(sp.queries),
+		res.Sample = map[string]interface{}{"enumeration": "c07-bool-" + fam.name, "corpus": fam.text(c), "queries_in_this_block": len(queries), "queries_of_the_stage": len(sp.queries),
 			"example_query": qn.str, "expected": maskIDs(want), "modes": "all / topn / topn-score-none"}
 	}
 	return res
